@@ -40,6 +40,7 @@
 (*   sum32    a + b > limit guards formed in 32-bit arithmetic (overflow)   *)
 (*   fixedtab counts / indices against tables of fixed size in the decoder *)
 (*   prodcap  product of two counts as an array capacity (GPOS 2.2/4/5/6)   *)
+(*   t2fan    steps executed by nested subroutine calls (fan^depth)          *)
 (*   t2op     generator: every Type 2 operator with operands at extremes   *)
 (*   sum      aggregate limits: k records, each within its own limit       *)
 (*            (cmap 12 groups, coverage ranges, name records, kern         *)
@@ -312,28 +313,45 @@ T2Ext == {-1131, -108, -107, -106, -105, -4, -1, 0, 1, 2, 3, 31, 32, 48, 1131}
 T2StackOps == {10, 29, 19, 20, 1218, 1220, 1221, 1227, 1228, 1229, 1230}   \* always replayed completely
 T2ODom == [op : T2Ops, d : {0, 2, 4, 47}, a : T2Ext, b : T2Ext]
 
+(* t2fan: the number of STEPS a charstring may execute.  Subroutines call   *)
+(* subroutines, at most ten levels deep (TN5177): that bounds the stack of  *)
+(* the interpreter, not its running time.  A subroutine that calls the next *)
+(* one `fan` times at every level executes fan^depth calls out of about     *)
+(* 3 * fan * depth bytes.  The pinned decoder (t2decode.go) checks the      *)
+(* depth only.  Trouble: more steps than a budget proportional to the input *)
+(* (64 steps per byte + 2^20) -- at fan 8, depth 10 a 240-byte file keeps   *)
+(* cff.Read busy for 10^9 calls.  depth 11 must be refused.                 *)
+FanDom == [depth : 1..11, fan : {1, 2, 3, 8, 30}]
+FanCap == 1073741824                      \* 2^30: "too many" (TLC integers are 32-bit)
+RECURSIVE FanPow(_, _)
+FanPow(f, d) == IF d = 0 THEN 1 ELSE LET r == FanPow(f, d - 1) IN IF r >= FanCap \div f THEN FanCap ELSE r * f
+FanBytes(r) == 3 * r.fan * r.depth + 60
+FanAccept(r) == r.depth <= 10
+FanTrouble(r) == FanAccept(r) /\ FanPow(r.fan, r.depth) > 64 * FanBytes(r) + 1048576
+
 ---------------------------------------------------------------------------
 Names == {"dir", "cmap", "cmap4", "cmap4seg", "cmap12", "index", "cffpriv", "loca", "simple", "cover", "classdef", "gpos5",
-          "t2store", "t2stack", "sum", "sum32", "fixedtab", "prodcap", "t2op"}
+          "t2store", "t2stack", "sum", "sum32", "fixedtab", "prodcap", "t2op", "t2fan"}
 Dom(n) == CASE n = "dir" -> DirDom [] n = "cmap" -> CmapDom [] n = "cmap4" -> C4Dom [] n = "cmap4seg" -> C4SDom
             [] n = "cmap12" -> C12Dom [] n = "index" -> IdxDom [] n = "cffpriv" -> PrivDom [] n = "loca" -> LocaDom
             [] n = "simple" -> SimDom [] n = "cover" -> CovDom [] n = "classdef" -> ClsDom [] n = "gpos5" -> G5Dom
             [] n = "t2store" -> T2SDom [] n = "t2stack" -> T2KDom [] n = "sum" -> SumDom
             [] n = "sum32" -> Sum32Dom [] n = "fixedtab" -> FixDom [] n = "prodcap" -> ProdDom [] n = "t2op" -> T2ODom
+            [] n = "t2fan" -> FanDom
 Accept == CASE g = "dir" -> DirAccept(x) [] g = "cmap" -> CmapAccept(x) [] g = "cmap4" -> C4Accept(x)
             [] g = "cmap4seg" -> C4SAccept(x) [] g = "cmap12" -> C12Accept(x) [] g = "index" -> IdxAccept(x)
             [] g = "cffpriv" -> PrivAccept(x) [] g = "loca" -> LocaAccept(x) [] g = "simple" -> SimAccept(x)
             [] g = "cover" -> CovAccept(x) [] g = "classdef" -> ClsAccept(x) [] g = "gpos5" -> G5Accept(x)
             [] g = "t2store" -> T2SAccept(x) [] g = "t2stack" -> T2KAccept(x) [] g = "sum" -> SumAccept(x)
             [] g = "sum32" -> Sum32Accept(x) [] g = "fixedtab" -> FixAccept(x) [] g = "prodcap" -> ProdAccept(x)
-            [] g = "t2op" -> TRUE
+            [] g = "t2op" -> TRUE [] g = "t2fan" -> FanAccept(x)
 Trouble == CASE g = "dir" -> DirTrouble(x) [] g = "cmap" -> CmapTrouble(x) [] g = "cmap4" -> C4Trouble(x)
             [] g = "cmap4seg" -> C4STrouble(x) [] g = "cmap12" -> C12Trouble(x) [] g = "index" -> IdxTrouble(x)
             [] g = "cffpriv" -> PrivTrouble(x) [] g = "loca" -> LocaTrouble(x) [] g = "simple" -> SimTrouble(x)
             [] g = "cover" -> CovTrouble(x) [] g = "classdef" -> ClsTrouble(x) [] g = "gpos5" -> G5Trouble(x)
             [] g = "t2store" -> T2STrouble(x) [] g = "t2stack" -> T2KTrouble(x) [] g = "sum" -> SumTrouble(x)
             [] g = "sum32" -> Sum32Trouble(x) [] g = "fixedtab" -> FixTrouble(x) [] g = "prodcap" -> ProdTrouble(x)
-            [] g = "t2op" -> FALSE
+            [] g = "t2op" -> FALSE [] g = "t2fan" -> FanTrouble(x)
 
 Init == g \in Names /\ x \in Dom(g)
 Next == UNCHANGED vars
@@ -354,7 +372,7 @@ Key == CASE g = "dir" -> x.o1 + 3 * x.l1 + 5 * x.o2 + 7 * x.l2 + x.F
          [] g = "gpos5" -> x.lig + 3 * x.mcc + 5 * x.comp
          [] OTHER -> 0
 \* small guards are replayed completely
-Sampled == Sample > 0 /\ (g \in {"simple", "gpos5", "classdef", "t2store", "t2stack", "sum", "fixedtab", "cffpriv"}
+Sampled == Sample > 0 /\ (g \in {"simple", "gpos5", "classdef", "t2store", "t2stack", "sum", "fixedtab", "cffpriv", "t2fan"}
                           \/ (g = "sum32" /\ (x.a \in {-8, -1, 1, 6, 7} \/ x.b \in {-8, -1, 6, 7}))
                           \/ (g = "prodcap" /\ (x.c1 \in {0, 1, 6, 7} /\ x.c2 \in {0, 1, 6, 7}) /\ x.avail \in {0, 2, 12})
                           \/ (g = "t2op" /\ (x.op \in T2StackOps \/ (x.a + 2 * x.b + x.d + x.op) % 4 = 0))
